@@ -149,6 +149,13 @@ def documents(thorough):
         {"ps": [{"begin": "1s", "end": "2s", "content": ["hallo"]}, {"begin": "3s", "end": "4s", "content": ["welt"]}]}]}, True, \
         {"fr": [(S, 2 * S, ["bonjour"], None, None, None)],
          "de": [(S, 2 * S, ["hallo"], None, None, None), (3 * S, 4 * S, ["welt"], None, None, None)]}
+    # a language spread over several divs (scenes, chapters): every div's cues are the language's cues, in document order
+    yield "one language in two divs, another language between them", {"divs": [
+        {"lang": "en-US", "ps": [{"begin": "1s", "end": "2s", "content": ["first scene"]}]},
+        {"lang": "fr", "ps": [{"begin": "1s", "end": "2s", "content": ["scène"]}]},
+        {"lang": "en-US", "ps": [{"begin": "3s", "end": "4s", "content": ["second scene"]}, {"begin": "5s", "end": "6s", "content": ["third"]}]}]}, \
+        False, {"en-US": [(S, 2 * S, ["first scene"], None, None, None), (3 * S, 4 * S, ["second scene"], None, None, None),
+                          (5 * S, 6 * S, ["third"], None, None, None)], "fr": [(S, 2 * S, ["scène"], None, None, None)]}
     yield "caption style reference", {"divs": [{"lang": "en-US", "ps": [{"begin": "1s", "end": "2s", "style": "emph",
                                                                           "content": ["all italic"]}]}]}, False, \
         {"en-US": [(S, 2 * S, ["all italic"], None, "emph", None)]}
